@@ -124,10 +124,17 @@ def check_propagate(ctx, R, modules=ANCHOR_MODULES_C03, note_modules=('streamz.r
                         bad = evs
             if npaths == 0:
                 raise AnalysisError('emit site %s:%d is on no enumerated path of %s' % (fn.file, site.lineno, con))
+            if fn.is_coro and bad is None and _in_unawaited_comprehension(fn.node, site):
+                # one await for a whole batch of emissions: every element but the last is handed downstream before the
+                # emission of the previous one has completed (the comprehension cannot wait in between)
+                bad = []
             token = '%s@%s' % (site.func.attr, _site_ordinal(fn, site))
             if fn.module.name in modules:
                 R.ob('PROPAGATE', con, token, bad is None,
-                     'the result of %s is dropped on some path (backpressure stops here)' % src(site)[:60] if bad else '',
+                     ('the result of %s is dropped on some path (backpressure stops here)' % src(site)[:60] if bad else
+                      '%s is evaluated once per iteration of a comprehension and the results are awaited together: every element '
+                      'but the last is handed downstream before the previous emission has completed' % src(site)[:60])
+                     if bad is not None else '',
                      ctx.where(fn, site.lineno), fmt_path(bad) if bad else None, npaths)
             elif bad is not None:
                 R.note('PROPAGATE outside C03\'s anchors: %s drops the result of %s at %s'
@@ -138,6 +145,26 @@ def check_propagate(ctx, R, modules=ANCHOR_MODULES_C03, note_modules=('streamz.r
     if reached != raw:
         raise AnalysisError('emit sites reached through functions (%d) != raw AST count (%d): a function was missed'
                             % (reached, raw))
+
+
+def _in_unawaited_comprehension(root, site):
+    """is the emission call evaluated once per iteration of a comprehension / generator expression without being awaited
+    inside that very iteration (`[f for part in parts for f in self._emit(part)]`, then one gather over all of them)"""
+    for comp in ast.walk(root):
+        if not isinstance(comp, (ast.ListComp, ast.SetComp, ast.GeneratorExp, ast.DictComp)):
+            continue
+        inner_gens = comp.generators[1:]
+        in_later_iter = any(x is site for g in inner_gens for x in ast.walk(g.iter))
+        in_elt = any(x is site for e_ in ([comp.elt] if not isinstance(comp, ast.DictComp) else [comp.key, comp.value]) for x in ast.walk(e_))
+        if not (in_later_iter or in_elt):
+            continue
+        # awaited inside the iteration itself?
+        for e_ in ([comp.elt] if not isinstance(comp, ast.DictComp) else [comp.key, comp.value]):
+            for aw in ast.walk(e_):
+                if isinstance(aw, (ast.Await, ast.Yield)) and any(x is site for x in ast.walk(aw)):
+                    return False
+        return True
+    return False
 
 
 def _same_site(a, b):
@@ -427,6 +454,10 @@ def check_bound_plumb(ctx, R):
             node = rets[-1].x.get('node') if rets else None
             if isinstance(node, ast.Call) and _call_name(node) == 'wait' and 'condition' in src(node.func):
                 waits += 1
+                if node.args or node.keywords:
+                    # a wait that can time out resolves silently: the blocked producer is let through although no tuple
+                    # was emitted, and the buffer grows beyond maxsize by one element per timeout
+                    bad = evs
             else:
                 bad = evs
     from .idioms import norm
